@@ -38,6 +38,11 @@ def strip_comments(src):
         elif src.startswith("--", i):
             j = src.find("\n", i)
             i = n if j < 0 else j
+        elif src[i] == "'" and i + 2 < n and (src[i + 2] == "'" or (src[i + 1] == "\\" and i + 3 < n and src[i + 3] == "'")):
+            # char literal such as '"' or '\n' (not a string start, not a prime in an identifier)
+            k = i + 3 if src[i + 2] == "'" else i + 4
+            out.append("'c'")
+            i = k
         elif src[i] == '"':
             j = i + 1
             while j < n and src[j] != '"':
@@ -91,12 +96,14 @@ def source_audit(mods):
     return hits
 
 
-def build(mods, clean=False, timeout=3000):
+def build(mods, clean=False, timeout=3000, only=None):
     """lake build the given modules. Returns (ok, log, failing: {module: [theorem names or '?']})."""
     lock = _lock()
     try:
         if clean:
             for m in imports_closure(mods):
+                if only is not None and only not in m:
+                    continue          # shared modules (Common, other properties' models) are never deleted under others' feet
                 rel = m.replace(".", "/")
                 for ext in (".olean", ".ilean", ".trace", ".olean.hash", ".ilean.hash", ".c", ".c.hash",
                             ".olean.server", ".olean.private", ".ir", ".ir.hash"):
@@ -175,7 +182,15 @@ def run_driver(prop, lines, timeout=1800):
     """Feed protocol lines to the Lean driver of a property; returns output lines (one per input line)."""
     stub = os.path.join(paths.LEAN, "Drivers", f"{prop}.lean")
     data = "\n".join(lines) + "\n"
-    p = subprocess.run(["lake", "env", "lean", "--run", stub], cwd=paths.LEAN, input=data,
-                       capture_output=True, text=True, timeout=timeout)
-    out = p.stdout.splitlines()
+    # no `lake` here: plain `lean --run` with the project's build directory on LEAN_PATH, so that a concurrent
+    # `lake build` of another property cannot interfere; one retry for transient failures
+    env = dict(os.environ)
+    env["LEAN_PATH"] = os.path.join(paths.LEAN, ".lake", "build", "lib", "lean")
+    for attempt in range(2):
+        p = subprocess.run(["lean", "--run", stub], cwd=paths.LEAN, input=data, env=env,
+                           capture_output=True, text=True, timeout=timeout)
+        out = p.stdout.splitlines()
+        if p.returncode == 0 and len(out) == len(lines):
+            break
+        time.sleep(1.0)
     return out, p.returncode, p.stderr[-3000:]
